@@ -9,8 +9,10 @@ Bind:   (spec -> code) for every case (ray, direction) the harness substitutes e
         exactly representable), evaluates TLC's elements with sin, cos, cot computed to 40 digits in rational arithmetic, and compares
         with Exp_SO3, T_SO3, T_SO3_inv (values), Exp_SO3_psi, T_SO3_psi, T_SO3_inv_psi (unit directions), T_SO3_dot (general direction)
         and Exp_SE3_h (assembled from the same elements).  Absolute tolerance 1e-8 (relative to 1 + |value|).
-Not covered (restriction): Log_SO3_A, Log_SE3_H (derivatives with respect to matrix entries); the quaternion tangent maps are rational
-        and decided under C01.
+        Float supplement for the logarithm derivatives (not derived by TLC): Log_SO3_A(Exp(psi)) : Exp_SO3_psi(psi) = I and
+        Log_SE3_H(Exp(h)) : Exp_SE3_h(h) = I (their action on the tangent space of the group).
+Not covered (restriction): Log_SO3_A, Log_SE3_H beyond that supplement (derivatives with respect to matrix entries); the quaternion
+        tangent maps are rational and decided under C01.
 """
 from __future__ import annotations
 
@@ -63,7 +65,7 @@ def run(ctx):
     r, cases = enumerate_cases(ctx, "RotationDerivatives", {"Stride": 1}, invariants=("AxisFixed", "NothingLost", "EdgesZero"), tag="rotder", timeout=1800)
     if not cases:
         raise tlc.MachineryError("TLC produced no cases for RotationDerivatives")
-    js = [2, 3, 5, 8, 11, 14, 17, 20, 23, 26, 28, 30] if ctx.thorough else [2, 4, 8, 13, 18, 23, 27, 30]
+    js = [0, 1, 2, 3, 5, 6, 7, 8, 9, 11, 14, 17, 20, 23, 26, 28, 30] if ctx.thorough else [0, 1, 2, 4, 6, 7, 8, 9, 13, 18, 23, 27, 30]
     ncmp = 0
     npoints = set()
     samples = []
@@ -92,7 +94,7 @@ def run(ctx):
         for j in js:
             eps = Fraction(1, 2 ** j)
             a = length * eps
-            if a >= 3:
+            if a > 3:          # the maps' domain is |psi| < pi
                 continue
             s, c = sincos(a)
             sh, ch = sincos(a / 2)
@@ -118,6 +120,14 @@ def run(ctx):
                     cmp("Exp_SE3_h (rotation block)", H_h[:3, :3, 3 + kk], E_d, dict(where, k=kk))
                     cmp("Exp_SE3_h (translation block, psi)", H_h[:3, 3, 3 + kk], T_d.T @ rr, dict(where, k=kk, r=rr.tolist()))
                     cmp("Exp_SE3_h (translation block, r)", H_h[:3, 3, :3], T_v.T, dict(where, r=rr.tolist()))
+                    # the logarithm derivatives (not derived by TLC): necessary condition on the tangent space, d Log(Exp(psi)) / d psi = I
+                    if kk == 0:
+                        A = np.asarray(rot.Exp_SO3(psi.copy()))
+                        LA = np.asarray(rot.Log_SO3_A(A))
+                        cmp("Log_SO3_A : Exp_SO3_psi", np.einsum("ijk,jkl->il", LA, np.asarray(rot.Exp_SO3_psi(psi.copy()))), np.eye(3), where)
+                        hh = np.concatenate([rr, psi])
+                        LH = np.asarray(rot.Log_SE3_H(np.asarray(rot.Exp_SE3(hh))))
+                        cmp("Log_SE3_H : Exp_SE3_h", np.einsum("ijk,jkl->il", LH, H_h), np.eye(6), dict(where, r=rr.tolist()))
                 else:
                     cmp("T_SO3_dot", rot.T_SO3_dot(psi.copy(), dirf.copy()), T_d, dict(where, psi_dot=dirf.tolist()))
                     # the derivative arrays contracted with the direction
